@@ -291,6 +291,74 @@ theorem plan_finalCast (i : ReaderInfo) (g : Bool) (hm : i.dtype = .finalCast g)
     · simp [hm, hg, hops, bind, Except.bind, pure, Except.pure, Except.map]
     · simp [hm, hg0, hops, bind, Except.bind, pure, Except.pure, Except.map, List.filter_append, h1]
 
+/-! ## helper calls -/
+
+theorem onImportError_eq (x y : Except Err Plan) :
+    onImportError x y = if x = .error .importError then y else x := by
+  unfold onImportError
+  split
+  · simp
+  · rename_i h
+    rw [if_neg]
+    intro hx
+    exact h hx
+
+theorem keySel_error (i : ReaderInfo) (key : Key) (err : Err) (h : i.keySel key = .error err) :
+    err = .typeError := by
+  unfold ReaderInfo.keySel at h
+  split at h
+  · cases h
+  · cases h
+  · cases h
+  · split at h
+    · cases h
+    · cases h
+    · cases h; rfl
+
+theorem plan_error (i : ReaderInfo) (key : Key) (dt : Option Str) (err : Err) (h : i.plan key dt = .error err) :
+    err = .typeError := by
+  unfold ReaderInfo.plan at h
+  cases hk : i.keySel key with
+  | error e0 =>
+    rw [hk] at h
+    simp only [bind, Except.bind] at h
+    cases h
+    exact keySel_error i key _ hk
+  | ok sel =>
+    rw [hk] at h
+    simp only [bind, Except.bind] at h
+    split at h <;> cases h
+
+theorem plan_reader (i : ReaderInfo) (key : Key) (dt : Option Str) (p : Plan) (h : i.plan key dt = .ok p) :
+    p.reader = i.reader := by
+  unfold ReaderInfo.plan at h
+  cases hk : i.keySel key with
+  | error e0 => rw [hk] at h; cases h
+  | ok sel =>
+    rw [hk] at h
+    simp only [bind, Except.bind] at h
+    split at h <;> cases h <;> rfl
+
+theorem callReader_importError_iff (e : Env) (i : ReaderInfo) (key : Key) (dt : Option Str) :
+    callReader e i key dt = .error .importError ↔ i.reader ∈ e.missing := by
+  unfold callReader
+  constructor
+  · intro h
+    split at h
+    · rename_i hm; simpa using hm
+    · have := plan_error i key dt _ h
+      cases this
+  · intro hm
+    have : e.missing.contains i.reader = true := by simpa using hm
+    rw [if_pos this]
+
+theorem callReader_reader (e : Env) (i : ReaderInfo) (key : Key) (dt : Option Str) (p : Plan)
+    (h : callReader e i key dt = .ok p) : p.reader = i.reader := by
+  unfold callReader at h
+  split at h
+  · cases h
+  · exact plan_reader i key dt p h
+
 /-! ## HDF5 depth-first search -/
 
 theorem mem_insertDesc (x y : H5) : ∀ l : List H5, y ∈ insertDesc x l ↔ y = x ∨ y ∈ l := by
